@@ -54,7 +54,7 @@ def run(ctx):
             cases.append(["rsmock " + (";".join("%s:%s:%s" % x for x in w) if w else "-")] + ["rcall"] * n + ["cleanup"])
             meta.append(("rs", w, n))
     # exchange stub scripts up to length 4 over {plain, wrapped ErrClosed, ErrClosed, block 0, block 3ms, nil}
-    toks = ["e1", "wclosed", "closed", "b0", "b3", "nil"]
+    toks = ["e1", "wclosed", "closed", "b0", "b3", "bn", "nil"]
     for n in range(0, 4 if ctx.quick() else 5):
         seqs = list(itertools.product(toks, repeat=n))
         if len(seqs) > 220:
@@ -68,6 +68,11 @@ def run(ctx):
         for q in ("nil", "open", "closed"):
             cases.append(["pubstub %s %s" % (e, q), "substub %s %s 61" % (e, q), "substub %s %s none" % (e, q)])
             meta.append(("stub", e, q))
+    # one stub, several calls in a row: a cancelled call leaves the stub as it was
+    for e in errs + ["closed"]:
+        for qs in itertools.product(("nil", "open", "closed"), repeat=3):
+            cases.append(["pubstubh %s %s" % (e, ",".join(qs)), "substubh %s %s" % (e, ",".join(qs))])
+            meta.append(("stubh", e, qs))
     cases.append(["rsstub 0102 7475", "rsstub - -"])
     meta.append(("rsstub",))
     impl, model = C.run_cases(ctx, "mocks", cases, timeout=1800)
@@ -119,6 +124,11 @@ def run(ctx):
             want0 = "pubstub " + ("canceled" if q == "closed" else e)
             if io[0] != want0:
                 bad = ("stub", "publish stub with quit %s returned `%s`, want `%s`" % (q, io[0], want0))
+        elif kind == "stubh":
+            e, qs = m[1], m[2]
+            want = ",".join("canceled" if q == "closed" else e for q in qs)
+            if io != ["pubstubh " + want, "substubh " + want]:
+                bad = ("stub-history", "one stub with fix %s called with quits %s returned %s, want %s for both" % (e, ",".join(qs), io, want))
         elif kind == "rsstub":
             if io != ["rsstub private", "rsstub private"]:
                 bad = ("rsstub", "ReadSlices stub does not return private copies: %s" % io)
